@@ -16,17 +16,14 @@ theorem C11_strip_hygiene (x : String) :
   exact ⟨stripL_ne_nil _, stripL_getLast _, stripL_lines _⟩
 
 /-- C11 for the formatter: whatever tree is accepted, under every configuration and display-width function. -/
-theorem C11_output_hygiene (e : Env) (root : Node) (out : String) (h : format e root = .ok out) :
+theorem C11_output_hygiene (cfg : Config) (wd : String → Nat) (root : Node) (out : String) (h : format cfg wd root = .ok out) :
     out.toList ≠ [] ∧ out.toList.getLast? = some '\n' ∧
     ∀ p ∈ splitNl out.toList, p.2 = true ∧ ∀ c, p.1.getLast? = some c → isWs c = false := by
   unfold format at h
-  cases hp : printDoc e root with
-  | error err => rw [hp] at h; cases h
-  | ok r =>
-    rw [hp] at h
-    simp only [Except.map] at h
-    cases h
+  split at h
+  · cases h
     exact C11_strip_hygiene _
+  · cases h
 
 /-- The same for range formatting's building block and for any other caller: hygiene does not depend on the width. -/
 theorem C11_all_widths (d : Pretty.Doc) (w : Nat) :
